@@ -4,6 +4,8 @@
 -/
 import Lean.Data.Json
 import Resonate.Model.Store
+import Resonate.Model.System
+import Resonate.Model.Env
 open Lean
 namespace Resonate
 
@@ -119,5 +121,92 @@ def storeErrToString : StoreErr → String
   | .badJsonPath _ => "bad-json-path"
   | .assertion w => "assertion: " ++ w
   | .injected => "injected"
+
+end Resonate
+
+/-! ### system-level codecs (sysdiff) -/
+namespace Resonate
+open Lean
+
+deriving instance ToJson, FromJson for Promise
+deriving instance ToJson, FromJson for Task
+deriving instance ToJson, FromJson for Callback
+deriving instance ToJson, FromJson for Schedule
+deriving instance ToJson, FromJson for Lock
+deriving instance ToJson, FromJson for CreatePromiseReq
+deriving instance ToJson, FromJson for CreateTaskReq
+deriving instance ToJson, FromJson for CompletePromiseReq
+deriving instance ToJson, FromJson for SearchPromisesReq
+deriving instance ToJson, FromJson for SearchSchedulesReq
+deriving instance ToJson, FromJson for CreateCallbackReq
+deriving instance ToJson, FromJson for CreateSubscriptionReq
+deriving instance ToJson, FromJson for CreateScheduleReq
+deriving instance ToJson, FromJson for AcquireLockReq
+deriving instance ToJson, FromJson for ClaimTaskReq
+deriving instance ToJson, FromJson for Config
+deriving instance ToJson, FromJson for SenderReq
+deriving instance ToJson, FromJson for SubId
+
+def reqFromJson (j : Json) : Except String Req := do
+  let k ← j.getObjValAs? String "k"
+  let c ← j.getObjVal? "c"
+  match k with
+  | "ReadPromise" => return .readPromise (← c.getObjValAs? String "id")
+  | "SearchPromises" => return .searchPromises (← fromJson? c)
+  | "CreatePromise" => return .createPromise (← fromJson? c)
+  | "CreatePromiseAndTask" => return .createPromiseAndTask (← c.getObjValAs? CreatePromiseReq "promise") (← c.getObjValAs? CreateTaskReq "task")
+  | "CompletePromise" => return .completePromise (← fromJson? c)
+  | "CreateCallback" => return .createCallback (← fromJson? c)
+  | "CreateSubscription" => return .createSubscription (← fromJson? c)
+  | "ReadSchedule" => return .readSchedule (← c.getObjValAs? String "id")
+  | "SearchSchedules" => return .searchSchedules (← fromJson? c)
+  | "CreateSchedule" => return .createSchedule (← fromJson? c)
+  | "DeleteSchedule" => return .deleteSchedule (← c.getObjValAs? String "id")
+  | "AcquireLock" => return .acquireLock (← fromJson? c)
+  | "ReleaseLock" => return .releaseLock (← c.getObjValAs? String "resourceId") (← c.getObjValAs? String "executionId")
+  | "HeartbeatLocks" => return .heartbeatLocks (← c.getObjValAs? String "processId")
+  | "ClaimTask" => return .claimTask (← fromJson? c)
+  | "CompleteTask" => return .completeTask (← c.getObjValAs? String "id") (← c.getObjValAs? Int "counter")
+  | "HeartbeatTasks" => return .heartbeatTasks (← c.getObjValAs? String "processId")
+  | _ => throw s!"unknown request kind {k}"
+
+def respToJson : Resp → Json
+  | .promise s p => Json.mkObj [("k", "promise"), ("status", toJson s), ("promise", toJson p)]
+  | .promiseTask s p t => Json.mkObj [("k", "promiseTask"), ("status", toJson s), ("promise", toJson p), ("task", toJson t)]
+  | .searchPromises s ps c => Json.mkObj [("k", "searchPromises"), ("status", toJson s), ("promises", toJson ps), ("cursor", toJson c)]
+  | .callback s p cb => Json.mkObj [("k", "callback"), ("status", toJson s), ("promise", toJson p), ("callback", toJson cb)]
+  | .schedule s sc => Json.mkObj [("k", "schedule"), ("status", toJson s), ("schedule", toJson sc)]
+  | .searchSchedules s ss c => Json.mkObj [("k", "searchSchedules"), ("status", toJson s), ("schedules", toJson ss), ("cursor", toJson c)]
+  | .status s => Json.mkObj [("k", "status"), ("status", toJson s)]
+  | .lock s l => Json.mkObj [("k", "lock"), ("status", toJson s), ("lock", toJson l)]
+  | .count s n => Json.mkObj [("k", "count"), ("status", toJson s), ("n", toJson n)]
+  | .claim s t rp lp rh lh => Json.mkObj [("k", "claim"), ("status", toJson s), ("task", toJson t), ("rootPromise", toJson rp),
+      ("leafPromise", toJson lp), ("rootPromiseHref", toJson rh), ("leafPromiseHref", toJson lh)]
+  | .task s t => Json.mkObj [("k", "task"), ("status", toJson s), ("task", toJson t)]
+  | .error c => Json.mkObj [("k", "error"), ("status", toJson c)]
+
+def submToJson : Subm → Json
+  | .store tx => Json.mkObj [("k", "store"), ("tx", toJson (tx.map cmdToJson))]
+  | .router p => Json.mkObj [("k", "router"), ("promise", toJson p)]
+  | .sender s => Json.mkObj [("k", "sender"), ("sender", toJson s)]
+
+def cplFromJson (j : Json) : Except String Cpl := do
+  let k ← j.getObjValAs? String "k"
+  match k with
+  | "router" => return .router (← j.getObjValAs? Bool "matched") (← j.getObjValAs? String "recv")
+  | "sender" => return .sender (← j.getObjValAs? Bool "success")
+  | "err" => return .err
+  | _ => throw s!"unknown completion kind {k}"
+
+def eventToJson : Event → Json
+  | .dispatch id s => Json.mkObj [("e", "dispatch"), ("tid", id.tid), ("seq", toJson id.seq), ("sub", submToJson s)]
+  | .respond tid r => Json.mkObj [("e", "respond"), ("tid", tid), ("resp", respToJson r)]
+  | .bgDone tid => Json.mkObj [("e", "bgDone"), ("tid", tid)]
+  | .panic tid site => Json.mkObj [("e", "panic"), ("tid", tid), ("site", site)]
+
+def failModeFromString : String → FailMode
+  | "before" => .before
+  | "after" => .after
+  | _ => .ok
 
 end Resonate
